@@ -55,6 +55,35 @@ class Schema:
         for k, v in zip(cm.keys, cm.values):
             if isinstance(k, ast.Constant):
                 self.converter_map[k.value] = v
+        # _equivalents and lookupTypes from otTables.py
+        otm = repo.mod("ttLib/tables/otTables.py")
+        self.equivalents = {}  # alt name -> base name
+        eq = otm.assigns.get("_equivalents")
+        if isinstance(eq, ast.Dict):
+            for k, v in zip(eq.keys, eq.values):
+                try:
+                    for alt in fold(v):
+                        self.equivalents[alt] = fold(k)
+                except Unknown:
+                    raise AnalysisError("otTables._equivalents is not a literal")
+        else:
+            raise AnalysisError("otTables._equivalents not found")
+        self.lookup_types = {}  # tag -> {int: class name}
+        bc = otm.funcs.get("_buildClasses")
+        if bc is None:
+            raise AnalysisError("otTables._buildClasses not found")
+        for n in ast.walk(bc.node):
+            if isinstance(n, ast.Assign) and isinstance(n.targets[0], ast.Name) and n.targets[0].id == "lookupTypes" and isinstance(n.value, ast.Dict):
+                for k, v in zip(n.value.keys, n.value.values):
+                    if isinstance(v, ast.Dict):
+                        self.lookup_types[fold(k)] = {fold(kk): ast.unparse(vv) for kk, vv in zip(v.keys, v.values)}
+            elif isinstance(n, ast.Assign) and isinstance(n.targets[0], ast.Subscript) and ast.unparse(n.targets[0].value) == "lookupTypes" and isinstance(n.value, ast.Subscript) and ast.unparse(n.value.value) == "lookupTypes":
+                self.lookup_types[fold(n.targets[0].slice)] = ("alias", fold(n.value.slice))
+        for k, v in list(self.lookup_types.items()):
+            if isinstance(v, tuple):
+                self.lookup_types[k] = self.lookup_types[v[1]]
+        if "GSUB" not in self.lookup_types or "GPOS" not in self.lookup_types:
+            raise AnalysisError("lookupTypes literal not found in otTables._buildClasses")
         # class name -> [(fullname, format or None)]
         self.by_class = {}
         for full in self.order:
@@ -93,10 +122,11 @@ class Schema:
         if m:
             return m.group(2)
         if t in ("struct", "Offset", "LOffset", "Offset24"):
-            return f.name
+            return self.equivalents.get(f.name, f.name)
         if t in self.converter_map:
-            return None
-        return t  # bare table name used as type => Struct of that table
+            # MortChain / MorxChain / MorxSubtable ...: converter whose table class is the schema table of the same name
+            return t if t in self.by_class else None
+        return self.equivalents.get(t, t)  # bare table name used as type => Struct of that table
 
     def formats_of(self, cls):
         return self.by_class.get(cls, [])
@@ -116,6 +146,37 @@ class Schema:
 
     def class_names(self):
         return set(self.by_class)
+
+    def successors(self, f: Field, root=None):
+        """schema classes a field leads to (type target, or the lookup classes for SubTable-like fields)"""
+        if f.name in ("SubTable", "ExtSubTable", "SubStruct"):
+            if root in self.lookup_types:
+                return sorted(set(self.lookup_types[root].values()))
+            out = set()
+            for d in self.lookup_types.values():
+                out.update(d.values())
+            return sorted(out)
+        tgt = self.type_target(f)
+        if tgt and tgt in self.by_class:
+            return [tgt]
+        return []
+
+    def reach_fields(self, cls, root=None):
+        """all (path, Field) reachable from schema class ``cls`` (cycle-safe)"""
+        seen = set()
+        out = []
+
+        def go(c, path):
+            if c in seen:
+                return
+            seen.add(c)
+            for f in self.fields_of_class(c):
+                out.append((path + (f"{f.table}.{f.name}",), f))
+                for nxt in self.successors(f, root):
+                    go(nxt, path + (f"{f.table}.{f.name}",))
+
+        go(cls, ())
+        return out
 
     def reaches(self, cls, pred, _seen=None):
         """Does class ``cls`` (any format) transitively contain a field satisfying pred(Field)?"""
